@@ -72,8 +72,10 @@ def gen_move(rng, t, last, spec=None):
     return {"op": "MOVE", "v": X.ser(v), "ints": ints, "kind": kind}, v
 
 
-def gen_observe(rng, spec, t, heavy):
+def gen_observe(rng, spec, t, heavy, tier="quick"):
     n = rng.randint(2, 3) if heavy else rng.randint(4, 7)
+    if tier == "thorough":
+        n += 2 if heavy else 3
     probes = []
     for _ in range(n):
         ptype = _wchoice(rng, PROBE_W_HEAVY if heavy else PROBE_W_FLAT)
@@ -92,7 +94,7 @@ def generate(rng, k, tier="quick"):
     copies = []  # model: t at the time of each DEEPCOPY
     have_ret = False
     if rng.random() < 0.5:
-        ops.append(gen_observe(rng, spec, t, heavy))
+        ops.append(gen_observe(rng, spec, t, heavy, tier))
     for _ in range(rng.randint(1, 6)):
         if rng.random() < 0.3:
             ops.append({"op": "DEEPCOPY"})
@@ -101,7 +103,7 @@ def generate(rng, k, tier="quick"):
         ops.append(op)
         t, last, have_ret = X.add(t, v), v, True
         if rng.random() < (0.6 if heavy else 0.8):
-            ops.append(gen_observe(rng, spec, t, heavy))
+            ops.append(gen_observe(rng, spec, t, heavy, tier))
         r = rng.random()
         if r < 0.15 and have_ret:
             ops.append({"op": "CHAIN"})
@@ -114,7 +116,7 @@ def generate(rng, k, tier="quick"):
             copies[i] = old
             last, have_ret = None, False
     if ops[-1]["op"] != "OBSERVE":
-        ops.append(gen_observe(rng, spec, t, heavy))
+        ops.append(gen_observe(rng, spec, t, heavy, tier))
     return {"property": NAME, "subject": spec, "ops": ops}
 
 
@@ -223,6 +225,37 @@ def primary_equal(a, b, oa, ob):
     if isinstance(a, Raised) or isinstance(b, Raised):
         return False
     return a == b and same(oa, ob)
+
+
+def observed_t(o, spec):
+    """where a handle actually is, read through its public accessors, as an exact
+    translation of the spec (None if that is not a lattice vector). Used for
+    handles the history has superseded (an earlier return value, the receiver
+    left behind by a.move(u).move(v)): Line.move and Plane.move return objects
+    that share state with the receiver, so such a handle may legitimately have
+    moved along - but wherever it is, it must be self-consistent."""
+    t, form = spec["t"], spec.get("form")
+    try:
+        if t == "Point":
+            got, want = _tup(o), X.vec(spec["p"])
+        elif t in ("Line", "Segment", "HalfLine"):
+            got, want = _tup(o.parametric()[0]), X.vec(spec["a"])
+        elif t == "Plane":
+            if form == "GF":
+                return None
+            got, want = _tup(o.point_normal()[0]), X.vec(spec["a"])
+        elif t == "ConvexPolygon":
+            got, want = min(_tup(p) for p in o.points), min(X.vertices(spec))
+        elif t == "ConvexPolyhedron":
+            got, want = min(_tup(p) for p in o.point_set), min(X.vertices(spec))
+        else:
+            return None
+        tv = tuple(F(g) - w for g, w in zip(got, want))
+    except Exception:
+        return None
+    if any(c.denominator > 4 or abs(c) > 64 for c in tv):
+        return None
+    return tv
 
 
 # ------------------------------------------------------------------ execution
@@ -362,6 +395,7 @@ def execute(history, opts=None):
     t = X.ZERO
     R = None
     copies = []  # [obj, t, label]
+    stale = []  # [obj, label]: handles the history has superseded (self-consistency only)
     seen_t = {t: copy.deepcopy(Xo)}
     self_q, _ = queries()
     base = {name: call(fn, Xo) for name, fn in self_q}
@@ -372,6 +406,9 @@ def execute(history, opts=None):
         if kind == "MOVE":
             v = X.vec(op["v"])
             mv = V(v, op.get("ints", False))
+            if R is not None:
+                stale.append([R, "superseded_return"])
+                del stale[:-3]
             ret = call(lambda o, w: o.move(w), Xo, mv)
             t = X.add(t, v)
             n_moves += 1
@@ -432,6 +469,15 @@ def execute(history, opts=None):
                 ctx.count("observations_of_returned")
                 _observe_side(ctx, step, "returned", R, spec, t, probes, base)
             heavy = spec["t"] == "ConvexPolyhedron"
+            for so, label in stale[-(1 if heavy else 2):]:
+                st = observed_t(so, spec)
+                if st is None:
+                    ctx.count("superseded_unlocatable")
+                    continue
+                ctx.count("observations_of_superseded_handles")
+                if st != t:
+                    ctx.count("superseded_handles_elsewhere")
+                _observe_side(ctx, step, label, so, spec, st, probes, base)
             for ci, (co, ct, label) in enumerate(copies[: (1 if heavy else 3)]):
                 ctx.count("observations_of_copies")
                 if ct != t:
@@ -446,6 +492,8 @@ def execute(history, opts=None):
             ctx.event(step, "DEEPCOPY", tname(c))
         elif kind == "CHAIN":
             if R is not None:
+                stale.append([Xo, "superseded_receiver"])
+                del stale[:-3]
                 Xo, R = R, None
                 ctx.count("chained")
                 ctx.event(step, "CHAIN", "ok")
